@@ -14,5 +14,5 @@ PROP = dict(
     assumptions=TRUST + ['ASAN_OPTIONS=allocator_may_return_null=1 so that an impossible request fails instead of aborting the process',
                          'ASan cannot see inside tbbmalloc: corruption there is detected by the pattern check only'],
     bins=[rc('C14_alloc_tbb', 'harness/C14_alloc.cpp', 'tbb-asan'),
-          rc('C14_alloc_mm', 'harness/C14_alloc.cpp', 'debug-asan', flags='-DC14_BIN=\\"C14_alloc_mm\\"')],
+          rc('C14_alloc_mm', 'harness/C14_alloc.cpp', 'debug-asan', cxx='g++', flags='-DC14_BIN=\\"C14_alloc_mm\\"')],
 )
